@@ -31,6 +31,7 @@ OPS = [
     Op("set", "b", b"2", noreply=True),
     Op("get_many", ["a", "b"]),
     Op("quit"),
+    Op("set_many", {"a": b"1", "b": b"2", "c": b"3"}, noreply=False),
 ]
 CLOSE = Op("close")
 
@@ -104,7 +105,7 @@ def build(net, tr, opt, stack):
 
 
 def run_history(ch, tr, opt, stack, seq):
-    net = simnet.SimNet(chooser=ch, menu=simnet.MENU_LIFECYCLE)
+    net = simnet.SimNet(chooser=ch, menu=simnet.MENU_LIFECYCLE, delivery="segment")
     net.owner_classes = (Client,)
     stacks.PROXY.current = net.clock
     obj, kw = build(net, tr, opt, stack)
@@ -229,13 +230,16 @@ def _jobs(tier):
     return jobs
 
 
-def _seqs(i1, tier):
+def _seqs(i1, tier, cfg=None):
     """(history, deviation bound)"""
+    tr, opt, stack = cfg
+    deep = opt in ("plain", "ignore_exc", "keepalive") and (stack == "client" or tr in ("tcp2", "tls"))
     for o2 in OPS:
         if tier == "quick":
-            yield (OPS[i1], o2, CLOSE), 2
-            for o3 in OPS:
-                yield (OPS[i1], o2, o3, CLOSE), 1
+            yield (OPS[i1], o2, CLOSE), (2 if deep else 1)
+            if deep or stack == "client":
+                for o3 in OPS:
+                    yield (OPS[i1], o2, o3, CLOSE), 1
         else:
             yield (OPS[i1], o2, CLOSE), 3
             for o3 in OPS:
@@ -244,7 +248,7 @@ def _seqs(i1, tier):
 
 def _worker(job, chk):
     (tr, opt, stack), i1, tier = job
-    for seq, bound in _seqs(i1, tier):
+    for seq, bound in _seqs(i1, tier, (tr, opt, stack)):
         def run(ch, seq=seq):
             return run_history(ch, tr, opt, stack, seq)
 
@@ -278,7 +282,7 @@ def run(chk):
     chk.rule = RULE
     chk.assumptions = ["simnet's socket model: a socket is open from socket() until close(); wrap_socket transfers the descriptor to the wrapper",
                        "every resolved address is served by the same reference server"]
-    chk.info["deviation_bounds"] = ("2 deviations on op1;op2;close + 1 on op1;op2;op3;close" if chk.tier == "quick" else "3 on op1;op2;close + 2 on op1;op2;op3;close")
+    chk.info["deviation_bounds"] = ("2 deviations on op1;op2;close for the plain/ignore_exc/keepalive option sets on Client and on tcp2/tls, 1 elsewhere; 1 on op1;op2;op3;close" if chk.tier == "quick" else "3 on op1;op2;close + 2 on op1;op2;op3;close")
     chk.info["configurations"] = len(configs(chk.tier))
     runner.parallel(chk, _worker, _jobs(chk.tier))
 
